@@ -45,12 +45,14 @@ class JobResult:
 class Ctx:
     """what a job function gets"""
 
-    def __init__(s, pid, tier, seed):
+    def __init__(s, pid, tier, seed, panic_only=False):
         s.pid = pid; s.tier = tier; s.seed = seed
         s.mir, s.types = _MIR, _TYPES
+        s.panic_only = panic_only
 
     def engine(s, **kw):
         e = Engine(s.mir, s.types, MODELS, **kw)
+        e.panic_only = s.panic_only
         e.solver.set('random_seed', s.seed % (2**31))
         z3.set_param('smt.random_seed', s.seed % (2**31)); z3.set_param('sat.random_seed', s.seed % (2**31))
         return e
@@ -71,7 +73,7 @@ def _run_job(args):
     fn, name, pid, tier, seed, kw = args
     jr = JobResult(name); t0 = time.time()
     try:
-        ctx = Ctx(pid, tier, seed)
+        ctx = Ctx(pid, tier, seed, panic_only=kw.pop('_panic_only', False))
         fn(ctx, jr, **kw)
     except Abort as ex:
         jr.status = 'inconclusive'; jr.reason = 'engine abort: %s' % ex
@@ -210,6 +212,8 @@ def discharge_known(e, jr, pid, classes, extract, obligations=None):
     known = {k['class']: k for k in load_known(pid)}
     active = {n: c for n, c in classes.items() if n in known}
     src = list(e.obligations if obligations is None else obligations)
+    if getattr(e, 'panic_only', False):       # C07 re-uses other properties' harnesses for their panic / unwinding obligations only
+        src = [o for o in src if o.kind != 'assert']
     obs = []
     for o in src:
         excl = [znot(f) for n, (f, kinds) in active.items() if o.kind in kinds]
